@@ -63,7 +63,7 @@ def run(tier, seed, replay=None, prop="C07", holds="holds07"):
             eout = elemprop.elem_part(R, prop, [{k: v for k, v in c.items() if k != "id"}], "holds07e", "holds07e", key_fn=lambda c, r: "elem-panic",
                                       failed="holds07e (Exec/ElemCase.v)")
             return R.finish()
-        raw = [{k: c[k] for k in ("target", "src", "entry", "pairs") if k in c}]
+        raw = [{k: c[k] for k in ("target", "src", "entry", "pairs", "group_all") if k in c}]
     else:
         raw = gen_cases(R.rng, tier)
         if prop == "C07":
